@@ -27,6 +27,7 @@ TERMINAL = ('Success', 'Failed', 'Error', 'Cancelled')
 class Shadow:
     def __init__(self, rng: random.Random):
         self.rng = rng
+        self.cancel_bias = 0.0
         self.ops: List[str] = []
         self.tags: List[str] = []
         self.date = 0
@@ -213,6 +214,8 @@ class Shadow:
         """one step of driver / worker / background activity"""
         rng = self.rng
         r = rng.random()
+        if self.cancel_bias and rng.random() < self.cancel_bias:
+            r = 0.65            # the cancellation branch (C07 / C39 want many cancels, also of nested groups in both orders)
         jobs = [(k, J) for k, J in self.jobs.items() if J['inserted']]
         # the driver only schedules what its SELECTs return: Ready jobs of running job groups of running batches.  That includes
         # (C41) Ready jobs of an update that is not committed yet when the batch / group is running because of another update
@@ -332,8 +335,9 @@ class Shadow:
             self.emit(rng.choice(self.sent), 'replay')           # an old message arrives (again)
 
 
-def history(rng: random.Random, max_updates: int = 3) -> Dict[str, Any]:
+def history(rng: random.Random, max_updates: int = 3, cancel_bias: float = 0.0) -> Dict[str, Any]:
     s = Shadow(rng)
+    s.cancel_bias = cancel_bias
     b = s.create_batch()
     for _ in range(rng.choice([1, 1, 2])):
         s.new_instance(True)
